@@ -59,7 +59,9 @@ def run_entry(profile, features, entry, repo=None):
             st.meta["case"] = label
             I.push_call(st, key, [driver.arg_id(st, x), driver.arg_id(st, n), driver.arena_ref()], None, None)
             I.explore([st], lambda t, e=entry: records.append(binary_record(I, e, t)))
-    elif entry in ("detach", "remove", "remove_subtree"):
+    elif entry == "remove_subtree":
+        records.extend(loop_entry(I, entry))
+    elif entry in ("detach", "remove"):
         for live in (True,):
             st = State()
             x = st.new_node(live, "arg:self")
@@ -86,6 +88,133 @@ def run_entry(profile, features, entry, repo=None):
     stats = {"entry": entry, "profile": profile, "terminals": len(records), "blocks": I.blocks_run, "statements": I.stmts_run,
              "forks": I.forks, "functions": sorted(I.fn_seen), "wall_s": round(time.time() - t0, 2)}
     return {"records": records, "stats": stats}
+
+
+def loop_entry(I, entry):
+    """Loop-invariant mode (DESIGN 5/C04): phase A = prefix up to the first arrival at the (single) loop head of the entry's own body;
+    phase B = one generic iteration from a fresh J-state with a generic cursor; the written induction combines them."""
+    from .interp import LoopHeadReached
+    from .state import Frame
+    key = NID + entry
+    heads = sorted(I.loop_heads(key))
+    records = []
+    if len(heads) != 1:
+        return [{"entry": entry, "phase": "setup", "exit": "undecided", "msg": "expected exactly one loop in %s, found %d" % (entry, len(heads)), "case": None}]
+    head = heads[0]
+    # ---- phase A
+    st = State()
+    x = st.new_node(True, "arg:self")
+    st.meta["args"] = (x,)
+    st.meta["case"] = "prefix (x live)"
+    I.push_call(st, key, [driver.arg_id(st, x), driver.arena_ref()], None, None)
+    st.meta["stop_at"] = (st.frames[-1].uid, head)
+    st.meta["stop_armed"] = True
+    prefix_locals = []
+
+    def on_a(t):
+        rec = unary_record(I, "detach", t) if t.kind == "loophead" else unary_record(I, entry, t)
+        rec["entry"] = entry
+        rec["phase"] = "prefix"
+        rec["op"] = "prefix"
+        if t.kind == "loophead":
+            rec["exit"] = "loophead"
+            fr = t.st.frames[-1]
+            cur = [l for l, v in fr.locals.items() if isinstance(v, VEnum) and v.adt == OPTION and v.variant == "Some" and t.st.node_of_id(v.get("0")) == x]
+            rec["cursor_locals"] = cur
+            prefix_locals.append((cur, {l: v for l, v in fr.locals.items()}))
+        records.append(rec)
+    I.explore([st], on_a, stop_kind="loophead")
+    if not prefix_locals:
+        return records
+    cur_locals = prefix_locals[0][0]
+    if len(cur_locals) != 1 or any(p[0] != cur_locals for p in prefix_locals):
+        records.append({"entry": entry, "phase": "setup", "exit": "undecided", "msg": "cannot identify the loop cursor of " + entry, "case": None})
+        return records
+    cl = cur_locals[0]
+    base_locals = prefix_locals[0][1]
+    # ---- phase B: generic iteration
+    for alias in (True, False):
+        st = State()
+        x = st.new_node(True, "arg:self")
+        st.set_h0_link(x, "parent", None)          # invariant: x stays detached (established by phase A, no write re-attaches it)
+        st.set_h0_link(x, "previous_sibling", None)
+        st.set_h0_link(x, "next_sibling", None)
+        if alias:
+            m = x
+        else:
+            m = st.new_node(True, "generic cursor")
+            st.anc[(x, m)] = True                  # invariant: the cursor is inside the subtree of x
+        st.propagate()
+        st.meta["args"] = (m,)
+        st.meta["root"] = x
+        st.meta["case"] = "iteration, cursor %s" % ("== x" if alias else "a proper descendant of x")
+        st.frame_counter += 1
+        locs = {}
+        for l, v in base_locals.items():
+            locs[l] = v      # ids of x are identical in both states (same individual name and symbols)
+        locs[cl] = some(st.id_of(m))
+        st.frames.append(Frame(st.frame_counter, key, locs, head, None, None, None, None))
+        st.meta["stop_at"] = (st.frames[-1].uid, head)
+        st.meta["stop_armed"] = False
+
+        def on_b(t, alias=alias):
+            rec = iteration_record(I, entry, t, cl)
+            records.append(rec)
+        I.explore([st], on_b, stop_kind="loophead")
+    # ---- phase C: exit with an exhausted cursor
+    st = State()
+    x = st.new_node(True, "arg:self")
+    st.meta["args"] = (x,)
+    st.meta["root"] = x
+    st.meta["case"] = "exit, cursor None"
+    st.frame_counter += 1
+    locs = dict(base_locals)
+    locs[cl] = none()
+    st.frames.append(Frame(st.frame_counter, key, locs, head, None, None, None, None))
+    st.meta["stop_at"] = (st.frames[-1].uid, head)
+    st.meta["stop_armed"] = False
+
+    def on_c(t):
+        rec, view = base_record(I, entry, t)
+        rec["phase"] = "exit"
+        rec["op"] = "exit"
+        rec["class"] = "possible"
+        if t.kind == "loophead":
+            rec["exit"] = "loophead"
+        records.append(rec)
+    I.explore([st], on_c, stop_kind="loophead")
+    return records
+
+
+def iteration_record(I, entry, t, cl):
+    rec, view = base_record(I, entry, t)
+    st = t.st
+    (m,) = st.meta["args"]
+    x = st.meta["root"]
+    rec["phase"] = "iteration"
+    rec["op"] = "iteration"
+    rec["class"] = "possible"
+    rec["x"] = m
+    if t.kind == "undecided":
+        return rec
+    if t.kind == "loophead":
+        rec["exit"] = "loophead"
+        fr = st.frames[-1]
+        nc = view.decode(fr.locals.get(cl)) if cl in fr.locals else ("bad", "cursor unset")
+        rec["next_cursor"] = nc if not isinstance(nc, tuple) else str(nc)
+    rec["shape"] = shape_of(view, st, m, x if x != m else None)
+    rec["freed"] = [k for k, r in st.nodes.items() if not r.fresh and r.live0 and "stamp" in r.cur and not view.live_post(k)]
+    rec["pre_first_child"] = view.pre(m, "first_child")
+    rec["pre_parent"] = view.pre(m, "parent")
+    rec["cursor_is_root"] = (m == x)
+    wrote = bool(rec.get("overlay"))
+    if wrote:
+        mm = spec.Model(view)
+        mm.op("remove", m)
+        rec["model_diff"] = [(a, str(b), str(c)) for a, b, c in mm.diff()]
+    else:
+        rec["model_diff"] = []
+    return rec
 
 
 def base_record(I, entry, t):
@@ -149,6 +278,8 @@ def unary_record(I, entry, t):
     if t.kind == "undecided":
         return rec
     rec["class"] = "possible" if st.nodes[x].live0 else "removed"
+    rec["x"] = x
+    rec["freed"] = [k for k, r in st.nodes.items() if not r.fresh and r.live0 and "stamp" in r.cur and not view.live_post(k)]
     rec["shape"] = shape_of(view, st, x, None)
     if entry == "append_value" and st.nodes[x].live0 and t.kind == "return":
         k = st.node_of_id(t.value)
@@ -162,9 +293,9 @@ def unary_record(I, entry, t):
             rec["model_diff"] = [(a, str(b), str(c)) for a, b, c in m.diff()]
             rec["model_touched"] = len(m.M)
             rec["returned"] = k
-    if entry == "detach" and st.nodes[x].live0:
+    if entry in ("detach", "remove") and st.nodes[x].live0 and t.kind in ("return", "loophead"):
         m = spec.Model(view)
-        m.op("detach", x)
+        m.op(entry, x)
         rec["model_diff"] = [(a, str(b), str(c)) for a, b, c in m.diff()]
         rec["model_touched"] = len(m.M)
     return rec
